@@ -502,6 +502,9 @@ func genE2E(r *vRng, tier string, w *bufio.Writer) {
 				c.motionDefaults = 1
 			}
 		}
+		if id%24 == 11 && nconn == 1 {
+			nconn = 2 // a camera the recorder refuses, then a camera it serves (see below)
+		}
 		if c.motionDefaults == 1 {
 			c.preview, c.min, c.max = r.pick(0, 1), r.pick(0, 1), 1
 			if c.throttle == 1 && c.min+c.preview == 0 {
@@ -538,7 +541,8 @@ func genE2E(r *vRng, tier string, w *bufio.Writer) {
 			if conn > 0 {
 				fmt.Fprintln(w, "n")
 			}
-			if id%24 == 11 && conn == nconn-1 && cc.lepton == 0 {
+			// (with two connections the refused camera comes FIRST: the next camera and the requests made then must be served)
+			if id%24 == 11 && ((nconn == 1) || (conn == 0)) && cc.lepton == 0 {
 				cc.unknownCam = true
 				switch r.intn(3) {
 				case 0:
